@@ -71,7 +71,18 @@ def surf_line(st, road, m, s, e, aero):
     return 'surf m=%d s=%d e=%d road=%d v=%s' % (m, s, e, 1 if road else 0, frac_list(v))
 
 
-def impl_road_albedo(pkg, m, s, e, alb, vc, va, full=False, sim=None, circ=''):
+# sites a rural file may state (latitude, longitude, time zone): the reference-site object handed to SolarCalcs carries
+# them as the real RSMDef does; the season is configured in calendar months - the site is no input of it
+STANDIN_SITES = [(F(137, 100), F(10398, 100), F(8)), (F(-3395, 100), F(15118, 100), F(10)), (F(4237, 100), F(-7103, 100), F(-5)),
+                 (F(-137, 100), F(10398, 100), F(8)), (F(0), F(0), F(0)), (F(-548, 10), F(-683, 10), F(-3)),
+                 (F(64), F(-219, 10), F(0))]
+
+
+def standin_site(m, s, e):
+    return STANDIN_SITES[(5 * m + 3 * s + e) % len(STANDIN_SITES)]
+
+
+def impl_road_albedo(pkg, m, s, e, alb, vc, va, full=False, sim=None, circ='', site=None):
     """Road albedo used by the real solarcalcs, read off `mr` with non-reflecting walls
     (alb_wall = 0 gives fr = 1 and mr = alb_road * roadSol exactly)."""
     SolarCalcs = pkg.solarcalcs.SolarCalcs
@@ -81,7 +92,9 @@ def impl_road_albedo(pkg, m, s, e, alb, vc, va, full=False, sim=None, circ=''):
     UCM = NS(canAspect=F(3, 4), wallConf=F(1, 4), roadConf=F(1, 2), alb_wall=F(0), road=road,
              vegcover=vc * F(1, 2), treeCoverage=F(1, 10), treeSensHeat=F(7919, 100), treeLatHeat=F(4973, 100))
     par = NS(vegStart=s, vegEnd=e, vegAlbedo=va, treeFLat=F(1, 2), grassFLat=F(2, 5))
-    sol = SolarCalcs(UCM, [], sim or NS(month=m), NS(), NS(dir=F(500), dif=F(100)), par, NS(solRec=F(0)))
+    lat, lon, gmt = site or standin_site(m, s, e)
+    rsm = NS(lat=lat, lon=lon, gmt=gmt, GMT=gmt, height=F(10), z0r=F(1), disp=F(5))
+    sol = SolarCalcs(UCM, [], sim or NS(month=m), rsm, NS(dir=F(500), dif=F(100)), par, NS(solRec=F(0)))
 
     def angles():
         sol.zenith = F(1, 2)
@@ -721,6 +734,90 @@ def live_wet_runs(chk):
                'area, they equal treeSensHeat / treeLatHeat of the reflection model', mismatches=len(bad), branches=counts)
 
 
+# ------------------------------------------------------------------------------ round 6: month ends; southern sites, live
+def month_end_ties(chk):
+    """(a) live runs crossing EVERY month end with a season boundary placed exactly there, judged per step against an
+    independent calendar (harness/w3_util.py) - the package's own tests only walk Jun -> Jul -> Aug -> Sep;
+    (b) the same per-step oracle on sites south of the equator (the season is configured in calendar months)."""
+    import os
+    import uwgutil as U
+    import w3_util as W
+    quick = chk.tier == 'quick'
+    work = chk.work()
+    rng = chk.rng
+    members = W.month_end_members(both=not quick)
+    w, done, found, notes = W.month_end_runs(chk, members, full=False)
+    counts = dict(w.counts)
+    nbad = len(found)
+    if not quick:                                   # the same members with the full physics (a sample)
+        w2, done2, found2, notes2 = W.month_end_runs(chk, rng.sample(members, 6) + [
+            mm for mm in members if mm['month'] == 11], full=True)
+        found += found2
+        nbad += len(found2)
+        notes += notes2
+        for k, v in w2.counts.items():
+            counts['full-physics:' + k.split(':month')[0]] = counts.get('full-physics:' + k.split(':month')[0], 0) + v
+    for mem, msgs in found[:3]:
+        chk.violation('impl-violation', 'season oracle on a live run crossing a month end (independent calendar)',
+                      case=dict(mem, dtsim=300), observed=' | '.join(msgs[:2]),
+                      expected='vegetation acts at exactly the steps whose calendar month (start date + elapsed time, '
+                               '365-day year) lies in the configured vegstart..vegend, in the reflection model and in the '
+                               'surface-flux model alike')
+    for nt in notes[:4]:
+        chk.notes.append('month-end run: ' + nt)
+    months_seen = set(int(k.rsplit('-', 1)[1]) for k in counts if k.startswith('solarcalcs:') and ':month-' in k)
+    if done and len(months_seen) < 12:
+        raise core.Infra('month-end family: sunlit steps judged only in months %s' % sorted(months_seen))
+    chk.direct('live-month-ends(every month end x season boundary there; independent calendar)', sum(counts.values()), done,
+               '2-day runs (dt 300 s) starting on the last day of EVERY month (31 Jan .. 30 Nov, 31 Dec), the season '
+               'boundary placed at that month end (season ending with the month / starting with the next; quick: '
+               'alternating, thorough: both + a sample with the full physics): real simulate() loop, real clock and '
+               'forcing hand-over, real SolarCalcs and real rural / road SurfFlux (quick: building / canyon / '
+               'boundary-layer balances left out, harness/w3_util.light_physics). Every sunlit solarcalcs call and every '
+               'SurfFlux call of a vegetated horizontal element judged against the calendar month computed from the start '
+               'date and the number of steps taken - never the clock - and the configured vegstart..vegend. A run over '
+               'the year end is the model\'s own fail-stop (note)', mismatches=nbad,
+               branches={k: v for k, v in counts.items() if ':month-' not in k or k.startswith('solarcalcs:off')})
+
+    # (b) southern sites, live, per step
+    src = U.rp(U4.SGP[1])
+    sites = ['south-33.9-east', 'south-34.6-west', 'south-1.37'] + ([] if quick else ['equator-0.0', 'north-40-west-negative-tz'])
+    cfgs = [dict(label='January, season 4..10', month=1, day=12, nday=1, vegstart=4, vegend=10),
+            dict(label='July, season 4..10', month=7, day=12, nday=1, vegstart=4, vegend=10),
+            dict(label='31 Mar -> 1 Apr, season 4..10', month=3, day=31, nday=2, vegstart=4, vegend=10),
+            dict(label='October, season 10..3 (start > end: empty)', month=10, day=12, nday=1, vegstart=10, vegend=3),
+            dict(label='December, season 11..12', month=12, day=5, nday=1, vegstart=11, vegend=12)]
+    br, bad, nrun = {}, 0, 0
+    for n, site in enumerate(sites):
+        f = U4.site_file(src, os.path.join(work, 'w3_site_%s.epw' % site), site, 'base')
+        picks = [cfgs[n % len(cfgs)], cfgs[(n + 1) % len(cfgs)]] if quick else cfgs
+        picks = [dict(c, label='site %s: %s' % (site, c['label'])) for c in picks]
+        w3, d3, found3, notes3 = W.month_end_runs(chk, picks, full=not quick and n == 0, epw=f,
+                                                  site='%s %s' % (site, U4.SITES[site]))
+        nrun += d3
+        for k, v in w3.counts.items():
+            kk = k.split(':month')[0]
+            br[kk] = br.get(kk, 0) + v
+        for mem, msgs in found3:
+            bad += 1
+            if bad <= 2:
+                chk.violation('impl-violation', 'season oracle per step on a live run, rural file of a southern / other site',
+                              case=dict(mem, dtsim=300, about={'LOCATION cells 6..9 (lat, lon, time zone, elevation)':
+                                                               U4.SITES[site]}),
+                              observed=' | '.join(msgs[:2]),
+                              expected='vegetation acts in exactly the configured calendar months vegstart..vegend, in the '
+                                       'reflection model and the surface-flux model alike, whatever latitude the rural '
+                                       'file states')
+        for nt in notes3[:2]:
+            chk.notes.append('southern-site run: ' + nt)
+    chk.direct('live-season-per-step(southern sites; independent calendar)', sum(br.values()), nrun,
+               'rural files stating latitude -33.95 / -34.82 / -1.37 (thorough: + equator, + northern control): 1- and '
+               '2-day live runs in January, July, December, across 31 Mar -> 1 Apr and with an empty season (start > end); '
+               'per step the reflection model (vegetation heat) and the surface-flux model (absorbed sunlight of road and '
+               'rural ground) are judged against the configured season and the calendar month of the step', mismatches=bad,
+               branches=br)
+
+
 def run(chk):
     chk.proof(MODULE, THEOREMS)
     if chk.tier == 'thorough':
@@ -761,7 +858,10 @@ def run(chk):
         meta2.append((m, s, e, alb, vc, va, got, ck.day))
     chk.correspond('SolarCalcs.road-albedo~roadAlbedo', 'C18', cases2,
                    rule='road albedo used by the real solarcalcs (recovered exactly from mr with '
-                        'non-reflecting walls) for ALL 12x12x12 triples vs Lean roadAlbedo',
+                        'non-reflecting walls) for ALL 12x12x12 triples vs Lean roadAlbedo; the reference-site object '
+                        'handed to SolarCalcs states one of 7 sites (latitude 64 .. -54.8, both hemispheres, equator; '
+                        'longitude east / west; time zone) - the site is no input of the season (likewise in the '
+                        'vegetation-heat tie)',
                    classify=lambda l, i: 'all')
 
     # --- tie 3: vegetation heat released to the canyon air, every triple
@@ -807,14 +907,18 @@ def run(chk):
             if bad <= 4:
                 chk.violation('impl-violation', 'season oracle on solarcalcs road albedo',
                               case={'clock_month': m, 'clock_day': cday, 'vegStart': s, 'vegEnd': e,
-                                    'albedo': str(alb), 'vegcoverage': str(vc), 'vegAlbedo': str(va)},
+                                    'albedo': str(alb), 'vegcoverage': str(vc), 'vegAlbedo': str(va),
+                                    'site (lat, lon, time zone) of the reference-site object': [
+                                        str(x) for x in standin_site(m, s, e)]},
                               observed=str(got), expected=str(want))
     for (m, s, e, ts, tl, cday) in meta3:
         if s <= e and not (s <= m <= e) and (ts != 0 or tl != 0):
             bad += 1
             if bad <= 6:
                 chk.violation('impl-violation', 'season oracle on solarcalcs vegetation heat',
-                              case={'clock_month': m, 'clock_day': cday, 'vegStart': s, 'vegEnd': e},
+                              case={'clock_month': m, 'clock_day': cday, 'vegStart': s, 'vegEnd': e,
+                                    'site (lat, lon, time zone) of the reference-site object': [
+                                        str(x) for x in standin_site(m, s, e)]},
                               observed='treeSensHeat=%s treeLatHeat=%s' % (ts, tl),
                               expected='0 outside the season (vegetation parameters have no effect)')
     chk.direct('season-oracle(SurfFlux, solarcalcs)', len(meta) + len(meta2) + len(meta3),
@@ -827,6 +931,7 @@ def run(chk):
     wet_surface_ties(chk, pkg)
     live_wet_runs(chk)
     circumstance_ties(chk, chk.tier == 'quick')
+    month_end_ties(chk)
     wrap = [(m, s, e) for (m, s, e, *_r) in meta2 if s > e]
     chk.measurements['wraparound'] = (
         'start > end (%d of 1728 triples): both routines treat every month as off-season '
